@@ -41,5 +41,5 @@ def run(ctx):
         "targets, failing requests, oversized writes, disks small enough to run out of space; directed: REMOVE / RENAME-over of a file whose truncation is still running in the background; "
         "crash workload of the free mix; quiescent images of sequential and concurrent histories",
         ["as C04 for the image; free counts are read from the allocators after waiting for the shrinker threads"],
-        pending=["the directory layer (AddName / RemName on directory blocks) on the tree view of M7"],
+        pending=["reclaim of DIRECTORY blocks stated on M7e (the slot writes are proved to be putSlot/set on the decoded slot list, Props/C04; the freeing of a removed directory's blocks is the file case: truncation_frees_exactly_what_it_unmaps)"],
         partial=["for all histories / crash points / schedules: sampled, not proved"])
